@@ -5,7 +5,9 @@ import (
 	"encoding/hex"
 	"fmt"
 	"hash"
+	"runtime/debug"
 	"sort"
+	"strings"
 )
 
 // Violation is what an oracle reports. Class is the stable identity of the
@@ -132,11 +134,31 @@ func LookupCheck(p string) (CheckSpec, bool) {
 	return c, ok
 }
 
-// Guard runs f and converts a panic into a string (nil when no panic).
+var lastStack string
+
+// LastStack returns the (trimmed) stack of the most recent panic caught by Guard.
+func LastStack() string { return lastStack }
+
+// Guard runs f and converts a panic into a value (nil when no panic).
 func Guard(f func()) (p any) {
 	defer func() {
 		if r := recover(); r != nil {
 			p = r
+			st := string(debug.Stack())
+			// keep only frames below the panic, in kyber or the harness, without addresses
+			var keep []string
+			for _, l := range strings.Split(st, "\n") {
+				if strings.HasPrefix(l, "\t") && (strings.Contains(l, "/repo/") || strings.Contains(l, "/verif/sim/")) {
+					if i := strings.LastIndex(l, " +0x"); i > 0 {
+						l = l[:i]
+					}
+					keep = append(keep, strings.TrimSpace(l))
+				}
+			}
+			if len(keep) > 8 {
+				keep = keep[:8]
+			}
+			lastStack = strings.Join(keep, " <- ")
 		}
 	}()
 	f()
